@@ -180,7 +180,7 @@ def c17_runs(chk, w, tier):
 
 
 CHECKS = {
-    "C01": simple_seq_check("C01", [("base", "allimpacted", 6, 300, 600, []), ("base", "allimpacted", 7, 120, 300, []), ("base", "allimpacted", 8, 30, 100, [])]),
+    "C01": simple_seq_check("C01", [("base", "allimpacted", 6, 300, 600, []), ("base", "allimpacted", 7, 120, 300, []), ("base", "allimpacted", 8, 150, 400, []), ("base", "reconv", 8, 60, 200, [])]),
     "C14": simple_seq_check("C14", [("primal", "allimpacted", 6, 200, 500, []), ("primal", "allimpacted", 7, 60, 200, [])], "; warm starts: the oracle's optimal and worst feasible witness solutions, alone, in both orders, and the same value twice with different solutions"),
     "C19": simple_seq_check("C19", [("cutoff", "allimpacted", 6, 120, 300, []), ("cutoff", "allimpacted", 7, 50, 150, []), ("cutoff", "knapsack", 9, 60, 200, []), ("cutoff", "setpack", 9, 20, 80, [])], "; cutoff series: the run repeated with the cutoff firing at every poll index k = 1..K+1, consecutive outcomes compared"),
     "C09": simple_seq_check("C09", [("cache", "allimpacted", 6, 300, 700, []), ("cache", "allimpacted", 7, 120, 300, []), ("cache", "allimpacted", 8, 30, 100, [])],
@@ -354,7 +354,7 @@ CHECKS.update({
 add_par_part("C05", [("cutsweep", "allimpacted", 6, 40, 120, 3, 3), ("cutsweep", "allimpacted", 7, 15, 60, 3, 4), ("free", "allimpacted", 7, 40, 150, 6, 8)])
 add_par_part("C02", [("sched", "allimpacted", 6, 60, 200, 4, 3), ("cutsweep", "allimpacted", 6, 15, 50, 2, 3), ("free", "allimpacted", 6, 20, 80, 4, 8)])
 add_par_part("C09", [("sched", "allimpacted", 6, 80, 250, 4, 3) + tuple(FOCUS2), ("sched", "reconv", 8, 150, 400, 3, 3) + tuple(FOCUS), ("sched", "reconv", 8, 80, 250, 3, 3) + tuple(FOCUS2)])
-add_par_part("C14", [("primal", "allimpacted", 6, 60, 200, 4, 3)])
+add_par_part("C14", [("primal", "allimpacted", 6, 250, 600, 6, 3), ("primal", "allimpacted", 7, 80, 250, 6, 4)])
 
 
 # =============================================================================== table mode: TLC paths replayed as schedules
